@@ -212,3 +212,19 @@ def surfer_obligations():
     """verde/io.py _read_surfer_header / _check_surfer_integrity against Model/Surfer.v (property C19)"""
     tag, mod_, funcs, tmpl, imports = SURFER_SPEC
     return tie(tag, mod_, funcs, tmpl, SURFER_THEOREMS, imports)
+
+
+CVSPLIT_FUNCS = [(os.path.join("verde", "utils.py"), "partition_by_sum"),
+                 "BlockKFold._iter_test_indices",
+                 (os.path.join("verde", "base", "base_classes.py"), "BaseBlockCrossValidator.split")]
+CVSPLIT_THEOREMS = ["src_BlockKFold_iter_test_indices_eq", "src_BlockKFold_split_eq"]
+CVSPLIT_IMPORTS = ("From Coq Require Import ZifyBool Permutation.\n"
+                   "From Verde Require Import Model.CrossVal Proofs.CrossValProofs Proofs.PyLiteBridge Proofs.PyLiteCV.")
+CVSPLIT_SPEC = ("CVSplitSrc", os.path.join("verde", "model_selection.py"), CVSPLIT_FUNCS, "pylite_cvsplit.v.tmpl",
+                CVSPLIT_IMPORTS)
+
+
+def cvsplit_obligations():
+    """BlockKFold._iter_test_indices / BaseBlockCrossValidator.split against Model/CrossVal.v (property C11)"""
+    tag, mod_, funcs, tmpl, imports = CVSPLIT_SPEC
+    return tie(tag, mod_, funcs, tmpl, CVSPLIT_THEOREMS, imports)
